@@ -34,8 +34,12 @@ BookC(b) ==
                  mark |-> Mark7, und |-> QI(2000)]
     [] b = 5 -> [listed |-> TRUE, live |-> TRUE, asks |-> <<Lv(500, 3), Lv(501, 3), Lv(502, 3), Lv(503, 40)>>, bids |-> <<Lv(499, 3), Lv(498, 3), Lv(497, 3), Lv(496, 3)>>,
                  mark |-> QOf(4995, 100000), und |-> QI(2000)]
+    \* a deep in-the-money premium: one price tick (0.0005) is less than the 0.1 % tolerance of a limit price, so TWO levels match a limit
+    \* price and only the first of them may be filled
+    [] b = 6 -> [listed |-> TRUE, live |-> TRUE, asks |-> <<Lv(8000, 2), Lv(8005, 4), Lv(8100, 2)>>, bids |-> <<Lv(7995, 2), Lv(7990, 4)>>,
+                 mark |-> P4(7998), und |-> QI(2000)]
 BookP == [listed |-> TRUE, live |-> TRUE, asks |-> <<Lv(610, 5), Lv(620, 2)>>, bids |-> <<Lv(590, 10)>>, mark |-> P4(600), und |-> QI(2000)]
-BookIds == IF Level > 1 THEN 1 .. 5 ELSE 1 .. 4
+BookIds == IF Level > 1 THEN 1 .. 6 ELSE {1, 2, 3, 4, 6}
 Books(b) == [i \in I2 |-> IF i = "C" THEN BookC(b) ELSE BookP]
 BooksPGone == [i \in I2 |-> IF i = "C" THEN BookC(1) ELSE NoRow]                      \* P not in the order book of the new bar
 BooksPHalt == [i \in I2 |-> IF i = "C" THEN BookC(1) ELSE [BookP EXCEPT !.live = FALSE]]   \* P listed with state "closed"
